@@ -88,6 +88,8 @@ class World(object):
         # logs
         self.seq = 0
         self.budget = int(scn.get("budget", 200000))
+        self.op_budget = None
+        self.op_seq0 = 0
         self.op_index = -1
         self.op_counts = {}
         self.calls = []            # peer call records of the current op
@@ -145,6 +147,14 @@ class World(object):
         self.seq += 1
         if self.seq > self.budget:
             raise BudgetExceeded("peer-call budget %d exhausted" % self.budget)
+        if self.op_budget is not None and self.seq - self.op_seq0 > self.op_budget:
+            # bounded liveness: a call made after the last fault has to get where the fault-free twin got, within a generous multiple
+            # of the peer calls the twin needed for the WHOLE history (deterministic: counted in peer calls, not in seconds)
+            P = self.scn.get("profile", "C12")
+            self.violate(P, P + ".resume_makes_progress", "op %d made %d peer calls (more than %d = 50 x the fault-free twin's whole history + 5000) and has "
+                         "not returned: t=%r, dt=%r" % (self.op_index, self.seq - self.op_seq0, self.op_budget,
+                                                         float(np.asarray(self.system.t[-1], dtype=np.float64)), float(np.asarray(self.system.dt, dtype=np.float64))))
+            raise BudgetExceeded("per-op liveness budget %d exhausted" % self.op_budget)
         k = self.op_counts.get(seam, 0) + 1
         self.op_counts[seam] = k
         return k
@@ -492,6 +502,9 @@ class World(object):
             self.apply_knobs()          # a retry cap that is in force for some ops only
         self.cur_events = None
         self.cur_op = op
+        self.op_seq0 = self.seq
+        ob_ = (self.scn.get("op_budgets") or {}).get(str(i))
+        self.op_budget = int(ob_) if ob_ is not None else None
         if kind == "integrate":
             cbs = [SimCallback(self, name, op) for name in op.get("callbacks", [])]
             self.cur_callbacks = cbs
